@@ -59,4 +59,24 @@ Proof.
   - intros p sg ap s v Hpp Hv. rewrite E. now apply (poling_value snell_internal compute_sign p sg ap s v).
   - intros s v Hpp Hv. rewrite E. now apply (poling_value_unpoled snell_internal compute_sign s v).
 Qed.
+(* the whole pipeline for two documented paths: try_new accepts them, and swept spectrum value j * nx + i is the centre value of the base
+   with slot 1 written with value i of the first axis (in path 1's unit) and then slot 2 with value j of the second axis *)
+Lemma sweep_paths p1 sl1 u1 p2 sl2 u2 : In (p1, (sl1, u1)) spec_table -> In (p2, (sl2, u2)) spec_table ->
+  forall base, exists s1 s2,
+    spdc_iter_try_new snell_internal compute_sign base p1 p2 = Some (base, (s1, s2)) /\
+    forall jsa2 nrm x0 x1 nx y0 y1 ny i j d, (i < nx)%nat -> (j < ny)%nat ->
+      nth (j * nx + i) (spdc_iter_into_iter base s1 s2 x0 x1 nx y0 y1 ny) base =
+        ideal sl2 (si_of u2 (axis_value y0 y1 ny j)) (ideal sl1 (si_of u1 (axis_value x0 x1 nx i)) base) /\
+      nth (j * nx + i) (spdc_iter_jsi_values jsa2 nrm base s1 s2 x0 x1 nx y0 y1 ny) d =
+        centre_value jsa2 nrm (ideal sl2 (si_of u2 (axis_value y0 y1 ny j)) (ideal sl1 (si_of u1 (axis_value x0 x1 nx i)) base)).
+Proof.
+  intros H1 H2 base.
+  destruct (setters_match snell_internal compute_sign p1 sl1 u1 H1) as [s1 [G1 E1]].
+  destruct (setters_match snell_internal compute_sign p2 sl2 u2 H2) as [s2 [G2 E2]].
+  exists s1, s2. split.
+  - rewrite try_new_spec, G1, G2. reflexivity.
+  - intros jsa2 nrm x0 x1 nx y0 y1 ny i j d Hi Hj. split.
+    + rewrite (setups_nth base s1 s2 x0 x1 nx y0 y1 ny i j base Hi Hj). now rewrite E1, E2.
+    + rewrite (values_nth base s1 s2 jsa2 nrm x0 x1 nx y0 y1 ny i j d Hi Hj). now rewrite E1, E2.
+Qed.
 End All.
